@@ -1970,6 +1970,8 @@ class Parallel(Logger):
         self.n_dispatched_batches = 0
         self.n_dispatched_tasks = 0
         self.n_completed_tasks = 0
+        # Read by print_progress; only the parallel code path sets it later.
+        self._pre_dispatch_amount = 0
 
         # Following count is incremented by one each time the user iterates
         # on the output generator, it is used to prepare an informative
